@@ -87,6 +87,12 @@ PROPS = {
     "C17": {"lean": ["JivaVerif.Properties.C17"],
             "runs": [rep("modes", 480, 32, 6000, 45, 7)], "modelled": FS + [
                 "partial (so far): the REST action table and the attach path through backend/remote are exercised by the restdiff engine when present"]},
+    "C15": {"lean": ["JivaVerif.Properties.C15"],
+            "runs": [{"engine": "rpcdiff", "profile": "mix", "salt": 21,
+                      "quick": {"n": 48, "len": 150}, "thorough": {"n": 640, "len": 3000, "timeout": 3000}}],
+            "modelled": ["modelled: the client loop is one goroutine; its events (request taken from the queue, frame read, transport error) are the model's steps; sequence numbers do not wrap (fewer than 2^32 requests per connection)",
+                         "partial: that select/time.After fire, channel-capacity blocking (responses, closeChan), the unsynchronised read of Client.err in operation(), and requests queued at the moment the loop exits (they fail at their own deadline) are runtime behaviour outside the event model; the harness observes prompt failure with shortened deadlines (rpc/verif_hooks.go)",
+                         "harness: real rpc.Wire on an in-memory conn; real rpc.Client over loopback TCP against a scripted peer"]},
     "C16": {"lean": ["JivaVerif.Properties.C16"],
             "runs": [rep("resize", 480, 30, 6000, 45, 5)], "modelled": FS},
 }
